@@ -72,6 +72,10 @@ pub struct CaseSpec {
     /// give stdin (the script for Delivery::Stdin, else `stdin`) through a pipe instead of a file
     #[serde(default)]
     pub stdin_pipe: bool,
+    /// run the shell as uid/gid 65534 (scripts of unknown content: nothing outside the scratch
+    /// directory is writable for them)
+    #[serde(default)]
+    pub unprivileged: bool,
 }
 
 #[derive(Clone, Debug, Serialize, Deserialize, PartialEq, Eq)]
@@ -393,9 +397,26 @@ pub fn run_in_scratch(kind: ShellKind, spec: &CaseSpec, opts: &RunOpts, scratch:
     cmd.stderr(Stdio::from(err_f));
     cmd.current_dir(&cwd);
     let cpus = spec.cpus.clone();
+    let unprivileged = spec.unprivileged;
+    if unprivileged {
+        use std::os::unix::fs::PermissionsExt;
+        for d in [scratch.dir.clone(), cwd.clone(), scratch.dir.join("home"), scratch.dir.join("tmp")] {
+            let _ = std::fs::set_permissions(&d, std::fs::Permissions::from_mode(0o777));
+        }
+        if let Ok(rd) = std::fs::read_dir(&cwd) {
+            for e in rd.flatten() {
+                let _ = std::fs::set_permissions(e.path(), std::fs::Permissions::from_mode(0o777));
+            }
+        }
+    }
     unsafe {
         cmd.pre_exec(move || {
             libc::setpgid(0, 0);
+            if unprivileged {
+                libc::setgroups(0, std::ptr::null());
+                libc::setgid(65534);
+                libc::setuid(65534);
+            }
             let lim = |res, soft: u64, hard: u64| {
                 let r = libc::rlimit { rlim_cur: soft, rlim_max: hard };
                 libc::setrlimit(res, &r);
